@@ -104,12 +104,9 @@ def _style_assignments(coords, tier):
     out.append(tuple(("async", "default")[i % 2] for i in range(k)))
     # a deferred result that is itself deferred: one such field among default / sync ones
     for i in range(k):
-        for base in ("default", "sync"):
+        for base, special in (("default", "nested"), ("sync", "nested"), ("default", "submit")):
             c = [base] * k
-            c[i] = "nested"
-            out.append(tuple(c))
-            c = [base] * k
-            c[i] = "submit"
+            c[i] = special
             out.append(tuple(c))
     for c in out:
         if c not in seen and any(x != "default" for x in c):
